@@ -205,4 +205,28 @@ def cnvByConstChecked (n resSize resCols resCol aSize aCols aCol bSize cnvOffset
   else if ¬ (1 ≤ aSize) then .panic "assert"                                   -- i64_convolution_by_const: assert!(a_size > 0)
   else .ok (cnvByConst n resSize resCols resCol aSize aCols aCol bSize cnvOffset)
 
+/-- `convolution_pairwise_apply_dft`, `col_i ≠ col_j` path.  `tmp = [tmp_a (8·a_size) | tmp_b (8·b_size) | tmp_res (8·min_size)]`
+(`assert_eq!(tmp.len(), …)`); the operand rows are read through bounds-checked sub-slices -/
+def cnvPairwise (m resSize resCols resCol aSize bSize colI colJ cnvOffset : Nat) : List Acc :=
+  let n := 2 * m
+  let bound := aSize + bSize - 1
+  let minSize := min resSize bound
+  let offset := min cnvOffset bound
+  (List.range (m / 4)).flatMap (fun blk =>
+    [rd 1 (colI * n * aSize + blk * (aSize * 8)) (aSize * 8), rd 1 (colJ * n * aSize + blk * (aSize * 8)) (aSize * 8),
+     wt 3 0 (aSize * 8),
+     rd 2 (colI * n * bSize + blk * (bSize * 8)) (bSize * 8), rd 2 (colJ * n * bSize + blk * (bSize * 8)) (bSize * 8),
+     wt 3 (aSize * 8) (bSize * 8)] ++
+    conv minSize offset aSize bSize (3, aSize * 8 + bSize * 8) (3, 0) (3, aSize * 8) ++
+    (List.range minSize).flatMap (fun k => save1blk m blk (0, n * (k * resCols + resCol)) (3, aSize * 8 + bSize * 8 + 8 * k))) ++
+  (List.range' minSize (resSize - minSize)).map (fun j => wt 0 (n * (j * resCols + resCol)) n)
+
+/-! ### element-wise limb loops (`vec_znx_dft_add_into`, `…_sub`, `…_copy`, `svp_apply_dft_to_dft`, …):
+`for j in lo..hi { K(res.at_mut(res_col, j), a.at(a_col, j)) }` where the AVX kernel `K` walks `res_slice.len()` elements
+of every operand with raw pointers (its equal-length assertions are `#[cfg(debug_assertions)]`).
+`nR`, `nA` = ring degrees of `res` and `a` -/
+def limbLoop (nR resCols resCol nA aCols aCol lo hi : Nat) : List Acc :=
+  (List.range' lo (hi - lo)).flatMap (fun j =>
+    [wt 0 (nR * (j * resCols + resCol)) nR, rd 1 (nA * (j * aCols + aCol)) nR])
+
 end Kern
